@@ -7,13 +7,13 @@ namespace Pya.C09
 def setDecl : List String := ["self.referencing_value_vars[varname] = value", "return EMPTY_ORIGIN"]
 
 /-- executed for every assignment, whatever backs the name -/
-def setAlways : List String := ["ref_var = self.referencing_value_vars[varname]", "self.definition_node_to_value[node] = value", "self.name_to_current_definition_nodes[varname] = [node]", "for composite in self.name_to_composites[varname]: self.name_to_current_definition_nodes[composite] = []", "self._add_composite(varname)", "return frozenset([node])"]
+def setAlways : List String := ["ref_var = self.referencing_value_vars[varname]", "self.definition_node_to_value[node] = value", "self.name_to_current_definition_nodes[varname] = [node]", "for composite in self.name_to_composites[varname]: self.name_to_current_definition_nodes[composite] = []", "self.name_to_all_definition_nodes[varname].add(node)", "self._add_composite(varname)", "return frozenset([node])"]
 
 /-- only for a name backed by a ReferencingValue (declared `global` / `nonlocal`) -/
 def setIfRef : List String := ["ref_var.scope.set(ref_var.name, value, node, state)", "if isinstance(ref_var.scope, FunctionScope): ref_var.scope.accessed_from_special_nodes.add(varname)", "self.accessed_from_special_nodes.add(varname)"]
 
 /-- only for a name NOT backed by a ReferencingValue -/
-def setIfNotRef : List String := ["self.name_to_all_definition_nodes[varname].add(node)"]
+def setIfNotRef : List String := []
 
 /-- under some other condition -/
 def setOther : List String := []
